@@ -220,4 +220,27 @@ theorem run_erase (env : Containers.Env) : ∀ (ops : List Op) (s : LSession), A
       rw [h.1]
       exact run_erase env ops s h.2
 
+/-- executable form of `Agree` -/
+def agreeB (env : Containers.Env) : LSession → List Op → Bool
+  | _, [] => true
+  | s, op :: ops =>
+    match lstep env s op with
+    | some s' => agreeB env s' ops
+    | none => (step env s.erase op).isNone && agreeB env s ops
+
+theorem agree_of_agreeB (env : Containers.Env) : ∀ (ops : List Op) (s : LSession), agreeB env s ops = true →
+    Agree env s ops
+  | [], _, _ => trivial
+  | op :: ops, s, h => by
+    simp only [agreeB] at h
+    simp only [Agree]
+    cases hst : lstep env s op with
+    | some s' =>
+      rw [hst] at h
+      exact agree_of_agreeB env ops s' h
+    | none =>
+      rw [hst] at h
+      simp only [Bool.and_eq_true, Option.isNone_iff_eq_none] at h
+      exact ⟨h.1, agree_of_agreeB env ops s h.2⟩
+
 end Sonic.Proofs.Ledger
